@@ -426,6 +426,25 @@ func c19Shards(tier string) []mc.Shard {
 				if err == nil {
 					dec, err = mapping.Decode(&bb, flag)
 				}
+				// the encoded bytes belong to the caller: scribbling over them, reusing the
+				// buffer for another mapping and encoding again must give the same bytes
+				{
+					var b1 []byte
+					m.Encode(&b1)
+					want := append([]byte{}, b1...)
+					for x := range b1 {
+						b1[x] = 0xff
+					}
+					b1 = b1[:0]
+					built[(i+1)%len(built)].Encode(&b1)
+					var b2 []byte
+					m.Encode(&b2)
+					b3 := make([]byte, 2, 64)
+					m.Encode(&b3)
+					if !bytes.Equal(b2, want) || !bytes.Equal(b3[2:], want) {
+						fail("C19.binary", "%s: encoded again after the caller overwrote and reused the first buffer, the bytes are % x / % x instead of % x", c, b2, b3[2:], want)
+					}
+				}
 				forms := map[string]mapping.IndexMapping{}
 				if err != nil || len(bb) != 0 {
 					fail("C19.binary", "%s: binary round trip failed: %v (%d bytes left)", c, err, len(bb))
@@ -503,6 +522,17 @@ func c19Shards(tier string) []mc.Shard {
 					res.Evaluations++
 				}
 				if c.DefaultOf {
+					// the base and offset that correspond to an accuracy: base as reported, offset
+					// 0 for the logarithmic and cubic kinds and 1/log2(base) for the linear one
+					// (kept "for backward compatibility" by the constructor)
+					dg, _ := mapParams(fromAcc)
+					doff := 0.0
+					if c.Kind == 'I' {
+						doff = 1 / math.Log2(dg)
+					}
+					if fb := (MapSpec{Kind: c.Kind, Gamma: dg, Offset: doff}).New(); !fb.Equals(fromAcc) || !fromAcc.Equals(fb) {
+						fail("C19.accuracy-vs-base", "%s: built from the accuracy it is not equal to the mapping built from base %v and offset %v", c, dg, doff)
+					}
 					if !m.Equals(fromAcc) || !fromAcc.Equals(m) {
 						fail("C19.accuracy-vs-base", "%s: built from the accuracy and from the corresponding base and offset are not equal", c)
 					}
